@@ -12,10 +12,10 @@ import time
 from harness import common
 
 CLAUSE_PROPS = {
-    'NoHang': ['C01', 'C04', 'C20'], 'NoWaitingAtRest': ['C01', 'C04'], 'DeclaredErrorsOnly': ['C01'],
+    'NoHang': ['C01', 'C04', 'C10', 'C20'], 'NoWaitingAtRest': ['C01', 'C04', 'C10'], 'DeclaredErrorsOnly': ['C01'],
     'WfMoves': ['C03'], 'ResultOnce': ['C03', 'C06'], 'SuccessSticky': ['C03'], 'FinishedFrozen': ['C03', 'C11', 'C20'],
     'JoinGate': ['C04'], 'JoinOnce': ['C04'], 'Caused': ['C04'], 'ReqGate': ['C04'], 'OnlyNeededOnce': ['C04'],
-    'DupNoEffect': ['C06'], 'NoDoubleDispatch': ['C06', 'C10'],
+    'DupNoEffect': ['C06'], 'StartOnce': ['C06', 'C10'], 'NoDoubleDispatch': ['C06', 'C10'],
     'WithinLimit': ['C07'], 'OnePerIndex': ['C07'], 'CompleteAfterAll': ['C07'], 'WithItemsFinalState': ['C07'],
     'NoNewTasksWhilePaused': ['C10'], 'PauseAck': ['C10'],
     'NoNewTasksAfterStop': ['C11'], 'StopAck': ['C11'], 'TreeCancelled': ['C11'],
@@ -131,5 +131,6 @@ def report(pid, verdict, traces, viols, extra_sig=None):
                                              'obs_at_failure': t['steps'][l - 1]['obs']})
             else:
                 other += 1
+                verdict.other_clauses[clause] = verdict.other_clauses.get(clause, 0) + 1
                 verdict.notes.append('clause %s (properties %s) false in a run of this check: %s' % (clause, props, msg[:300]))
     return mine, other
